@@ -21,19 +21,23 @@ def _run_code(code, ns):
     return eval(code, ns)
 
 
-def exec_unit(src, ns, filename='<ref>'):
+def exec_unit(src, ns, filename='<ref>', stream=None):
     """
     Run one unit (one or more top-level statements).  Returns
     (stdout, value, is_expr, exc) where value is the value of the final
     statement when it is an expression statement (else NOVALUE) and exc is the
     exception instance if one was raised (stdout then holds what was written
-    before it).
+    before it).  With ``stream`` (one StringIO shared by all units of a
+    program) sys.stdout is the same object for the whole program, as it is
+    for an ordinary Python program, and the text returned is what was written
+    to it during this unit - also through a reference kept by an earlier unit.
     """
     tree = ast.parse(src, filename=filename)
     body = list(tree.body)
     is_expr = bool(body) and isinstance(body[-1], ast.Expr)
     value = NOVALUE
-    buf = io.StringIO()
+    buf = stream if stream is not None else io.StringIO()
+    start = len(buf.getvalue())
     exc = None
     with contextlib.redirect_stdout(buf):
         try:
@@ -50,7 +54,7 @@ def exec_unit(src, ns, filename='<ref>'):
                 value = _run_code(code, ns)
         except Exception as ex:  # noqa
             exc = ex
-    return buf.getvalue(), value, is_expr, exc
+    return buf.getvalue()[start:], value, is_expr, exc
 
 
 def run_units(units, ns=None):
